@@ -78,9 +78,10 @@ def depth2(tier):
                 yield ["struct", [a, c, b]]
     for c1, c2 in itertools.product(nested, repeat=2):
         yield ["struct", [c1, c2]]
+        yield ["union", [c1, c2]]
+        yield ["delim", ["struct", [c1, ["bool"], c2]], L.tmax(["struct", [c1, ["bool"], c2]]) + 8]
         if tier != "quick":
-            yield ["union", [c1, c2]]
-            yield ["delim", ["struct", [c1, ["bool"], c2]], L.tmax(["struct", [c1, ["bool"], c2]]) + 8]
+            yield ["struct", [["uint", 3, "s"], c1, ["varr", c2, 2]]]
 
 
 def depth3(tier):
@@ -108,7 +109,7 @@ def family(name, tier):
 
 
 def plan(tier):
-    fams = [("scalars", 8), ("depth1s", 24), ("depth1u", 16), ("depth2", 16)]
+    fams = [("scalars", 8), ("depth1s", 24), ("depth1u", 16), ("depth2", 32)]
     if tier != "quick":
         fams.append(("depth3", 32))
     return [{"family": n, "part": p, "parts": k} for n, k in fams for p in range(k)]
@@ -117,7 +118,7 @@ def plan(tier):
 def cases(shard, tier):
     for i, d in enumerate(family(shard["family"], tier)):
         if i % shard["parts"] == shard["part"]:
-            yield {"desc": d, "cap": 24 if tier == "quick" else 48}
+            yield {"desc": d, "cap": 32 if tier == "quick" else 64}
 
 
 def has_subbyte(desc) -> bool:
